@@ -21,6 +21,9 @@ EXPLANATION += (
     ' ADDED: C19.3 decides the rate encoding by cases (rate < 1 -> -int(1/rate), else int(rate)) whatever its spelling. C19.5: the fresh header sizes the data section with the blockshape component of each axis (rule of C03.4), which matters exactly for the accepted non-square settings.'
 )
 EXPLANATION += (
+    ' ADDED (round 4): C19.7 - per-block emission order of every producer is (plane set, crossline block, sample block), the order the reader addresses (rule C01.6 reported for this property): an accepted non-default blockshape otherwise yields a valid-looking file with bricks at the wrong offsets. C19.1 compares bits * prod(blockshape) with 8*DISK_BLOCK_BYTES as polynomials (constants through the module), C19.2 reads layout predicates from path facts.'
+)
+EXPLANATION += (
     ' C19.1 also: a first blockshape component of 1 is accepted only through the 2D entry (the disjunct is conjoined with a flag that only define_blockshape_2d sets). C19.6: every accepted layout reads back through canonical addresses, decodes and crops (rules of C02 over all layout modes, non-square ones included).'
 )
 ASSUMPTIONS = ['assert statements are active (python is not run with -O)',
@@ -106,6 +109,20 @@ def run(ctx):
     from .. import layoutrules as LR
     LR.report(ctx, LR.collect(ctx.shared), {'L1': 'C19.6', 'DEC': 'C19.6', 'L3': 'C19.6', 'L4': 'C19.6'})
     ctx.floor('C19.6', 30, 'read / decode / assembly / crop sites over the layout modes')
+    # the other half of "yields a faithful file" for the non-default layouts: the blocks of a plane set are emitted in the
+    # order the reader addresses them (rule C01.6, reported here as C19.7)
+    ctx.rule('C19.7', 'per-block emission order of every producer is (plane set, crossline block, sample block), the order read back')
+    from .c01 import emission_order
+    from .c09 import _relabel
+    pl_, prods_ = PR.producers(P, G)
+    n0 = len(ctx.findings)
+    emission_order(ctx, prods_)
+    for fnd in ctx.findings[n0:]:
+        if fnd.rule == 'C01.6':
+            fnd.rule = 'C19.7'
+    _relabel(ctx, ('C01.6',), 'C19.7')
+    ctx.floors = [(('C19.7' if r == 'C01.6' else r), n_, w) for (r, n_, w) in getattr(ctx, 'floors', [])]
+    ctx.rule_docs.pop('C01.6', None)
     entry, cores = resolver(P, G)
     for f in cores:
         fm = FactMap(f.node)
